@@ -358,6 +358,7 @@ def csv_case(text, lines, args, fl, edges, tag):
     sig = {'entry': 'from_csv', 'delimiter': args.get('delimiter') or args.get('sep') or 'inferred',
            'given_as': 'delimiter' if args.get('delimiter') else ('sep' if args.get('sep') else 'inferred'),
            'header_lines': sum(1 for ln in lines if ln[:1] in ('#', '%')), 'rows': len(lines),
+           'header': {0: 'none', 1: 'single'}.get(len({ln[:1] for ln in lines if ln[:1] in ('#', '%')}), 'mixed'),
            'layout': args.get('data_structure') or 'guessed'}
     sig.update({k: fl[k] for k in FLAG_KEYS})
     desc = {'f': 'from_csv', 'text': text, 'args': args, 'flags': fl,
@@ -631,7 +632,7 @@ def gen_edge_cases(ctx, out, earlies):
         pairs = [(a, b) for a in pool for b in pool]
         lists = [[p] for p in pairs] + [[p, q] for p in pairs for q in pairs]
         if quick:
-            lists = [lists[i] for i in sorted(rng.sample(range(len(lists)), 40))]
+            lists = [lists[i] for i in sorted(rng.sample(range(len(lists)), 90))]
         for es in lists:
             for fl in all_flag_combos():
                 wm = rng.choice(['none', 'small', 'any'])
@@ -641,7 +642,7 @@ def gen_edge_cases(ctx, out, earlies):
                 earlies.append((c, e))
         ctx.count('exhaustive-lists:' + name, len(lists) * 32)
     # sampled longer lists
-    for _ in range(700 if quick else 8000):
+    for _ in range(1500 if quick else 20000):
         kind, pool = id_pool(rng)
         k = rng.randint(1, 7)
         wm = rng.choice(['none', 'small', 'any', 'any'])
@@ -673,7 +674,7 @@ def gen_edge_cases(ctx, out, earlies):
         earlies.append((c, e))
         ctx.count('degenerate-edge-lists')
     # adjacency lists / dicts
-    for _ in range(120 if quick else 1500):
+    for _ in range(250 if quick else 4000):
         fl = rand_flags(rng)
         if rng.random() < 0.5:
             n = rng.randint(1, 5)
@@ -697,9 +698,9 @@ def gen_csv_cases(ctx, out, earlies):
         t[0] += 1
         return str(t[0])
     headers = [[], ['# a comment'], ['% konect style', '% second line'], ['#h1', '#h2 with, delims;\there'],
-               ['%x'], ['# one', '# two', '# three']]
+               ['%x'], ['# one', '# two', '# three'], ['# one', '% two'], ['%a', '#b b, c;\td e f']]
     delims = [',', ';', '\t', ' ', '|']
-    n_cases = 260 if quick else 3000
+    n_cases = 500 if quick else 8000
     for _ in range(n_cases):
         d = rng.choice(delims)
         numeric = rng.random() < 0.5
@@ -733,7 +734,7 @@ def gen_csv_cases(ctx, out, earlies):
         earlies.append((c, e))
         ctx.count('csv-delimiter:' + {'\t': 'tab', ' ': 'space'}.get(d, d) + ':' + how)
     # layouts given explicitly and adjacency layouts (run line only)
-    for _ in range(60 if quick else 600):
+    for _ in range(100 if quick else 1500):
         d = rng.choice(delims[:4])
         n = rng.randint(1, 5)
         adj = [[rng.randrange(n + 1) for _ in range(rng.randint(0, 4))] for _ in range(n)]
@@ -755,7 +756,19 @@ def gen_csv_cases(ctx, out, earlies):
         earlies.append((c, e))
         ctx.count('csv-layout:' + (args.get('data_structure') or 'guessed'))
     # scan_header alone on the same kinds of files is covered through from_csv; degenerate files:
-    deg = ['', '\n', '0 1\n\n1 2\n', '# only a comment\n', '0 1 2 3\n1 2\n', 'a b\nc\n', '0,1\n1;2\n', '0 1 \n1 2 \n',
+    # two candidate delimiters are consistent (the repo's own test file 'f, e, 5'): the tie rule of the inference
+    for _ in range(40 if quick else 400):
+        d2 = rng.choice([', ', '; ', ',\t', ' ,', ';;', ', ;'])
+        k = rng.randint(1, 4)
+        rows = [[rng.choice('abcxy') + rng.choice(['', 'a', 'B']), rng.choice('abcxy')] + ([str(rng.randint(1, 5))] if k % 2 else [])
+                for _ in range(k)]
+        text = '\n'.join(d2.join(r) for r in rows) + '\n'
+        c, e = csv_case(text, None, {}, rand_flags(rng), None, tag())
+        out.append(c)
+        earlies.append((c, None))
+        ctx.count('csv-ambiguous-delimiter')
+    deg = ['', '\n', '0 1\n\n1 2\n', '0 1\n# c\n1 2\n', 'a b\n# c\nb c\n', '0 1 # tail\n1 2\n', '#a\n%b\n0 1\n1 2\n',
+           '#a b\n%b c\n0 1\n1 2\n', '# only a comment\n', '0 1 2 3\n1 2\n', 'a b\nc\n', '0,1\n1;2\n', '0 1 \n1 2 \n',
            '1,2,x\n2,3,y\n', '0 1 2\n1 2 3\n2 3 4\n', 'a b c\nb\n', '5\n']
     for text in deg:
         lines = text.split('\n')
@@ -773,7 +786,7 @@ def gen_persist_cases(ctx, out, earlies):
     names = ['adjacency', 'biadjacency', 'names', 'names_row', 'labels', 'meta', 'position', 'x', 'A', 'a_b', 'k2']
     kinds = ['csr', 'ndarray', 'other']
     t = 0
-    for _ in range(40 if quick else 400):
+    for _ in range(60 if quick else 1500):
         keys = rng.sample(names, rng.randint(0, 5))
         attrs = [(k, rng.choice(kinds), i) for i, k in enumerate(keys)]
         t += 1
@@ -845,7 +858,7 @@ def gen_path_cases(ctx, out, earlies):
         k += 1
         out.append(extract_case([m], 's%d' % k))
         ctx.count('extract:single-member')
-    for _ in range(30 if quick else 400):
+    for _ in range(60 if quick else 1500):
         k += 1
         ms = [rng.choice(HOSTILE[-8:] + ['f%d' % i for i in range(4)]) for _ in range(rng.randint(1, 4))]
         if rng.random() < 0.5:
